@@ -29,7 +29,7 @@ ASSUMPTIONS = [
     "no reference from a namespace to a null-namespace type (not spellable, A21)",
     "'error naming the missing type' = some Exception whose str() or .name contains the full name (A30)",
 ]
-N = {"quick": 12800, "thorough": 400000}
+N = {"quick": 32000, "thorough": 800000}
 TIME_LIMIT = {"quick": 40, "thorough": 560}
 SHARDS = 16
 REACH = {
